@@ -56,6 +56,10 @@ func (f *TimeField) GenReadFrom() (string, error) {
 	g.printlnf("{")
 	g.printlnf("timeInt := uint64(0)")
 	g.printlne(GenNaturalNumberDecode("timeInt"))
+	// A millisecond count beyond what a time.Duration can hold saturates instead of wrapping around
+	g.printlnf("if timeInt > uint64((1<<63-1)/time.Millisecond) {")
+	g.printlnf("timeInt = uint64((1<<63 - 1) / time.Millisecond)")
+	g.printlnf("}")
 	if f.opt {
 		g.printlnf("tempVal := time.Duration(timeInt) * time.Millisecond")
 		g.printlnf("value.%s = &tempVal", f.name)
